@@ -109,6 +109,7 @@ fn frontier(label: &str, kind: AffectedFrontierKind) -> AffectedFrontier {
 
 fn builder(
     epoch: WriterEpochId,
+    seg: WalSegmentId,
     chain: &Chain,
     label: &str,
     authority: WalAppendAuthority,
@@ -116,7 +117,7 @@ fn builder(
 ) -> WalTransactionBuilder {
     WalTransactionBuilder::new(
         epoch,
-        WalSegmentId::from_raw(1),
+        seg,
         // the transaction id depends on position and kind only, not on the payload family, so a
         // second log ("v1:…") has the same ids, LSNs and epoch and differs in payload content only
         WalTransactionId::from_hash(digest(&format!(
@@ -137,17 +138,29 @@ fn builder(
     )
 }
 
-/// Build one transaction of `kind` with payloads derived from `label`.
+/// Build one transaction of `kind` with payloads derived from `label` (frames declare segment 1).
 pub fn build_tx(
     kind: TxKind,
     epoch: WriterEpochId,
     chain: &Chain,
     label: &str,
 ) -> Result<WalCommittedTransaction, String> {
+    build_tx_on(kind, epoch, chain, label, WalSegmentId::from_raw(1))
+}
+
+/// Build one transaction of `kind` whose frames declare segment `seg`.
+pub fn build_tx_on(
+    kind: TxKind,
+    epoch: WriterEpochId,
+    chain: &Chain,
+    label: &str,
+    seg: WalSegmentId,
+) -> Result<WalCommittedTransaction, String> {
     let r = match kind {
         TxKind::Submit => build_submission_acceptance_transaction(
             builder(
                 epoch,
+                seg,
                 chain,
                 label,
                 WalAppendAuthority::SubmissionIntake,
@@ -174,6 +187,7 @@ pub fn build_tx(
             build_tick_transaction(
                 builder(
                     epoch,
+                    seg,
                     chain,
                     label,
                     WalAppendAuthority::TrustedScheduler,
@@ -194,6 +208,7 @@ pub fn build_tx(
         TxKind::Reading => build_retained_reading_transaction(
             builder(
                 epoch,
+                seg,
                 chain,
                 label,
                 WalAppendAuthority::TrustedScheduler,
@@ -243,6 +258,7 @@ pub fn build_tx(
             build_topology_intent_transaction(
                 builder(
                     epoch,
+                    seg,
                     chain,
                     label,
                     WalAppendAuthority::TrustedScheduler,
